@@ -59,6 +59,12 @@ func (e *Exchange) MiEncodePayload(recordSize int) error {
 	if e.ResponseHeaders.Get(enc.DigestHeaderName()) != "" {
 		return fmt.Errorf("signedexchange: response already has %q header", enc.DigestHeaderName())
 	}
+	// A digest header that is present with an empty value must be refused too:
+	// the MI digest added below would become its second value, and the verifier
+	// (http.Header.Get) only looks at the first one.
+	if len(e.ResponseHeaders.Values(enc.DigestHeaderName())) > 0 {
+		return fmt.Errorf("signedexchange: response already has %q header", enc.DigestHeaderName())
+	}
 	var buf bytes.Buffer
 	digest, err := enc.Encode(&buf, e.Payload, recordSize)
 	if err != nil {
